@@ -521,6 +521,12 @@ def oracle_mxrr(cases, impl):
 def oracle_tabmemo(cases, impl):
     out = []
     for line in cases:
+        if line.startswith("V fn.mixed_step_memoization"):
+            info = case_info(line)
+            tr = impl.get(info["cid"])
+            if info["fn"] == "memosweep" and tr and "err=none" not in tr[0] and " tab=(" in tr[0]:
+                out.append(fail("C16", info, line, "the memoised planner fails where the tabulated planner has an entry: %s" % tr[0], "memo_fails"))
+            continue
         if not line.startswith("V fn.mixed_steps_tabulation"):
             continue
         info = case_info(line)
@@ -792,7 +798,7 @@ def oracle_costs(cases, impl):
             continue
         kind = info["ps"][1]
         N, r, d, uf, ub, wd, rd = (int(x) for x in info["ps"][2:9])
-        if N > 60:
+        if N > (60 if kind == "hrevolve" else 420):
             continue
         fwd, dw, dr = stream_cost_vector(tr)
         cost = uf * fwd + ub * N + wd * dw + rd * dr
@@ -850,6 +856,11 @@ def oracle_twolevel(cases, impl):
                 passes.append(cur)
                 cur = []
         bad = None
+        # an adjoint pass of valid parameters that breaks off with an exception recomputes no block (or not all of them) at all
+        exc = next((o for k, o, _ in (parse_line(l) for l in tr if l.startswith("N ")) if o.startswith("EXC")), None)
+        if exc and in_domain(info) and any(o.startswith("r") or o.startswith("l") for o in info["ops"]):
+            out.append(fail("C13", info, line, "pass %d breaks off with %s after %d action(s): its period blocks are not recomputed" % (len(passes) + 1, exc, len(cur)), "broken_off"))
+            continue
         for pi, ps in enumerate(passes):
             per_block = {}
             for a in ps:
